@@ -1,4 +1,104 @@
-import XgiModel.Core.HG
+/-
+  C01 — Undirected incidence integrity under every edit history.
+  Property theorems only; helper lemmas live in Lemmas/HGWF.lean.
+-/
+import XgiModel.Lemmas.HGWF
+
 namespace Xgi.C01
-theorem placeholder : True := trivial
+open Xgi Xgi.HG
+
+/-- run a history of public calls; `none` only when an op falls outside the model
+    (inadmissible RNG oracle, tuple-of-tuple IDs) -/
+def run : HG → List Op → Option HG
+  | s, [] => some s
+  | s, op :: ops => match step s op with
+    | none => none
+    | some r => run r.1 ops
+
+/-- the states reachable from the empty hypergraph by public calls (returning or raising) -/
+inductive Reachable : HG → Prop
+  | empty : Reachable HG.empty
+  | step {s : HG} {op : Op} {r : HG × Outcome} : Reachable s → step s op = some r → Reachable r.1
+
+/-- one call — whether it returns (`ok`/`warned`) or raises (`err _`) — preserves the invariant
+    (two-way incidence + one attribute record per ID + counter above all integer edge IDs) -/
+theorem C01_step {s : HG} (h : Inv s) (op : Op) (r : HG × Outcome) (hr : step s op = some r) : Inv r.1 :=
+  step_inv h op r hr
+
+/-- every reachable state satisfies the invariant -/
+theorem C01_reachable {s : HG} (h : Reachable s) : Inv s := by
+  induction h with
+  | empty => exact empty_inv
+  | step _ hr ih => exact C01_step ih _ _ hr
+
+/-- after any finite history -/
+theorem C01_history (ops : List Op) (s s' : HG) (h : Inv s) (hr : run s ops = some s') : Inv s' := by
+  induction ops generalizing s with
+  | nil => simp [run] at hr; subst hr; exact h
+  | cons op ops ih =>
+    simp only [run] at hr
+    split at hr
+    · cases hr
+    · rename_i r hs; exact ih r.1 (C01_step h op r hs) hr
+
+/-- … and after every prefix of it -/
+theorem C01_prefix (ops : List Op) (s' : HG) (hr : run HG.empty ops = some s') (k : Nat) :
+    ∃ t, run HG.empty (ops.take k) = some t ∧ WF t := by
+  have key : ∀ (ops : List Op) (s s' : HG), Inv s → run s ops = some s' → ∀ k, ∃ t, run s (ops.take k) = some t ∧ WF t := by
+    intro ops
+    induction ops with
+    | nil => intro s s' h _ k; exact ⟨s, by simp [run], h.1⟩
+    | cons op ops ih =>
+      intro s s' h hr k
+      cases k with
+      | zero => exact ⟨s, by simp [run], h.1⟩
+      | succ k =>
+        simp only [run] at hr
+        split at hr
+        · cases hr
+        · rename_i r hs
+          obtain ⟨t, ht, hw⟩ := ih r.1 s' (C01_step h op r hs) hr k
+          exact ⟨t, by simp [run, hs, ht], hw⟩
+  exact key ops HG.empty s' empty_inv hr k
+
+/-- the reading the statement asks for: membership is reported identically from both sides -/
+theorem C01_iff {s : HG} (h : Reachable s) {n e : PyId} (hn : n ∈ s.nodes) (he : e ∈ s.edges) :
+    n ∈ s.mem e ↔ e ∈ s.memb n :=
+  ⟨fun hm => ((C01_reachable h).1.e2n e he n hm).2, fun hm => ((C01_reachable h).1.n2e n hn e hm).2⟩
+
+/-- every reported member is a node of the hypergraph -/
+theorem C01_members_are_nodes {s : HG} (h : Reachable s) {n e : PyId} (he : e ∈ s.edges) (hm : n ∈ s.mem e) :
+    n ∈ s.nodes := ((C01_reachable h).1.e2n e he n hm).1
+
+/-- every reported membership is an existing edge -/
+theorem C01_memberships_are_edges {s : HG} (h : Reachable s) {n e : PyId} (hn : n ∈ s.nodes) (hm : e ∈ s.memb n) :
+    e ∈ s.edges := ((C01_reachable h).1.n2e n hn e hm).1
+
+/-- every node and every edge has exactly one attribute record (and nothing else has one) -/
+theorem C01_one_attr_record {s : HG} (h : Reachable s) :
+    (∀ n, n ∈ s.nattrK ↔ n ∈ s.nodes) ∧ s.nattrK.Nodup ∧ (∀ e, e ∈ s.eattrK ↔ e ∈ s.edges) ∧ s.eattrK.Nodup :=
+  let w := (C01_reachable h).1
+  ⟨w.attrN, w.nodupNK, w.attrE, w.nodupEK⟩
+
+/-- `None` is never a node or an edge -/
+theorem C01_no_none {s : HG} (h : Reachable s) : PyId.none ∉ s.nodes ∧ PyId.none ∉ s.edges :=
+  ⟨(C01_reachable h).1.noNoneN, (C01_reachable h).1.noNoneE⟩
+
+/-! ### non-vacuity: concrete non-trivial histories run inside the model and meet the hypotheses -/
+
+private def demoOps : List Op :=
+  [ .addEdge [.int 1, .int 2, .str "a"] none [],
+    .addEdgesFrom .f2 [{ members := [.int 2, .int 3], idx := some (.int 0), attr := [] },
+                       { members := [.int 3], idx := some (.int 7), attr := [] }] [],
+    .addEdge [.int 3, .none] none [],                       -- raises
+    .removeNode (.int 2) false true,
+    .addNodeToEdge (.int 9) (.int 1),
+    .doubleEdgeSwap (.int 1) (.int 3) (.int 0) (.int 7),
+    .mergeDuplicateEdges .first .first none ]
+
+example : (run HG.empty demoOps).isSome = true := by decide
+example : ((run HG.empty demoOps).map (·.edges)) = some [.int 0, .int 7] := by decide
+example : ((run HG.empty demoOps).map (fun s => s.mem (.int 0))) = some [.str "a", .int 3] := by decide
+example : ((run HG.empty demoOps).map (fun s => s.memb (.int 3))) = some [.int 0] := by decide
+
 end Xgi.C01
